@@ -354,6 +354,14 @@ _ALPHA = {
     'bmp': 'AZaz09 éÿĀЖ中￮',
     'uni': 'AZaz09 éЖ中￮\U0001F600\U00010348',
 }
+# code points that text-handling code likes to treat specially (byte-order mark and its mirror image, NUL, the ends of
+# the BMP and of the surrogate gap, the last code point): legal characters of the Unicode string types all the same
+_SPECIAL = {
+    'bmp': '\ufeff\ufffe\x00\uffff\ud7ff\ue000\u0080\u07ff\u0800',
+    'uni': '\ufeff\ufffe\x00\uffff\ud7ff\ue000\u0080\u07ff\u0800\U00010000\U0010ffff',
+    'latin': '\xa0\xff\xad',
+    'ascii': '\x00\x7f\r\n',
+}
 
 
 def gen_text(rng, T, big_ok):
@@ -365,7 +373,12 @@ def gen_text(rng, T, big_ok):
         return gen_utime(rng)
     n = gen_len(rng, big_ok)
     a = _ALPHA[alpha]
-    return ''.join(rng.choice(a) for _ in range(n))
+    out = [rng.choice(a) for _ in range(n)]
+    sp = _SPECIAL.get(alpha)
+    if sp and n and rng.random() < 0.3:
+        # first, last or some inner character is one of the special code points
+        out[rng.choice([0, 0, -1, rng.randrange(n)])] = rng.choice(sp)
+    return ''.join(out)
 
 
 def gen_gtime(rng):
